@@ -507,6 +507,13 @@ func (c *changeCache) DocChanged(event sgbucket.FeedEvent, docType DocumentType)
 					change.SourceID = atRev.CurrentSource
 					change.Version = base.HexCasToUint64(atRev.CurrentVersion)
 					change.Channels = channelRemovals
+					for _, removal := range channelRemovals {
+						if removal.Deleted {
+							// the revision that left the channels was a tombstone, as the channel query reports it
+							change.Flags |= channels.Deleted
+							break
+						}
+					}
 				} else {
 					change.UnusedSequence = true // treat as unused sequence when sequence is not channel removal
 				}
